@@ -213,7 +213,24 @@ class Endpoint:
         put('ls', lambda: settings(conn.local_settings))
         put('rs', lambda: settings(conn.remote_settings))
         put('hdrCap', lambda: conn.decoder.max_header_list_size)
+        put('hp', lambda: [absn.i32(conn.encoder.header_table_size), bool(conn.encoder.header_table.resized),
+                           [absn.i32(v) for v in conn.encoder.table_size_changes], absn.i32(conn.decoder.header_table_size),
+                           absn.i32(conn.decoder.max_allowed_table_size)])
+        put('pend', lambda: count_logical_frames(bytes(conn.incoming_buffer.data)))
         return z
+
+
+def count_logical_frames(buf):
+    """Complete frames in an input buffer, a header block (HEADERS/PUSH_PROMISE + its CONTINUATIONs) counted once."""
+    n = 0
+    open_block = False
+    for typ, fl, sid, payload in wire.split_frames(buf)[0]:
+        if open_block and typ == wire.T_CONT:
+            open_block = not (fl & wire.F_END_HEADERS)
+            continue
+        n += 1
+        open_block = typ in (wire.T_HEADERS, wire.T_PUSH) and not (fl & wire.F_END_HEADERS)
+    return n
 
 
 def strip_private(frames):
